@@ -217,16 +217,23 @@ func (d *ldoc) chainNote(p *lpara) string {
 // blockLostKey: the key under which a token of the block that shows up nowhere fails. A
 // block that sits in a block-level container of the body (w:sdt / w:customXml) fails under
 // a key of its own: the container is transparent, what it holds is body content.
-func blockLostKey(format string, bl lblock, wrap string) string {
-	if bl.Box != 0 {
+func blockLostKey(format string, bl lblock, t ptok) string {
+	if bl.Box != 0 || t.CellBox != "" {
 		return "block-container-content-lost"
 	}
-	return lostKey(format, wrap)
+	return lostKey(format, t.Wrap)
 }
 
 // boxNote says which container the block sits in.
 func boxNote(bl lblock) string {
 	if bl.Box == 0 {
+		if bl.T != nil {
+			for _, c := range bl.T.Cells {
+				if c.Box != "" {
+					return fmt.Sprintf("; a cell of the table holds paragraphs inside a block-level container (%s) that is a child of the w:tc", c.Box)
+				}
+			}
+		}
 		return ""
 	}
 	return fmt.Sprintf("; the block is written inside a block-level container of the body (%s): %s", bl.BoxKind,
@@ -320,7 +327,7 @@ func evaluate(d *ldoc, out outputs) fails {
 				if whole {
 					f.add("list-item-lost", "Document(): list item block %d (level %d, text %q) is in no element%s", bi, bl.P.Level, bl.P.wantText(), d.nestNote(bi))
 				} else {
-					f.add(blockLostKey(F, bl, t.Wrap), "Document(): token %q of block %d (%s) is in no element%s", t.Tok, bi, t.Wrap, boxNote(bl))
+					f.add(blockLostKey(F, bl, t), "Document(): token %q of block %d (%s) is in no element%s", t.Tok, bi, t.Wrap, boxNote(bl))
 				}
 				continue
 			}
@@ -432,7 +439,7 @@ func evaluate(d *ldoc, out outputs) fails {
 					if whole {
 						f.add("list-item-lost", "%s: list item block %d (level %d, text %q) missing%s", o.name, bi, bl.P.Level, bl.P.wantText(), d.nestNote(bi))
 					} else {
-						f.add(blockLostKey(F, bl, t.Wrap), "%s: token %q of block %d (%s) missing%s", o.name, t.Tok, bi, t.Wrap, boxNote(bl))
+						f.add(blockLostKey(F, bl, t), "%s: token %q of block %d (%s) missing%s", o.name, t.Tok, bi, t.Wrap, boxNote(bl))
 					}
 					continue
 				}
